@@ -39,6 +39,29 @@ CLAIMS["C12"] = dict(
     technique="import allow-list over the runtime payload + def-use check of the verbatim copy + classification of every import-registration argument and template-embedded import",
     ref="3/C12",
 )
+CLAIMS["C17"] = dict(
+    text="Decides the composition of transport x plugins that no test runs through to the wire: (1) key flow - every request_args key a "
+    "bundled plugin writes (headers, params, cookies) is read back from the plugin result by HttpxTransport and stored into the request "
+    "kwargs on every path; (2) layering - the header dict is fresh (defaults never aliased), defaults.update precedes per-request update "
+    "precedes the auth call on every path and the plugin sees the layered headers; (3) pass-through - request() forwards method, url and "
+    "every caller kwarg except headers unchanged (exact comprehension filter, no pops/overrides); (4) CompositeAuth threads the result "
+    "through self.plugins in constructor order; (5) ApiKeyAuth's location switch is total and writes {self.name: self.key} into the right "
+    "container; (6) every bundled plugin extends a copy of the container it writes and returns request_args. Header-name case folding and "
+    "the bytes httpx finally sends are not decided.",
+    technique="key-flow def-use (written keys subset of forwarded keys) + must-pass-through on the CFG + statement-order reachability + structural totality of the location switch",
+    ref="3/C17",
+)
+CLAIMS["C18"] = dict(
+    text="Decides chunk-independence by information flow: each line-oriented decoder (iter_sse, iter_ndjson, iter_sse_events_text and any "
+    "new decoder taking a response) touches the response only through `aiter_lines()` as the iterable of an async-for, or by delegating to "
+    "another checked decoder, and never re-splits/decodes text itself - so chunk boundaries are not observable and the claim reduces to "
+    "httpx's LineDecoder (trusted). Plus typestate of the SSE accumulator on all CFG paths (dispatch exactly on the blank line, every "
+    "non-blank line collected, reset after dispatch and never before parsing, final unterminated event flushed, every parsed event "
+    "yielded), field parsing (comment test dominates the split at the first colon, data appended in order and joined with a newline) and "
+    "per-line ndjson decoding with no carried state. Equality of yielded items over all chunkings is not enumerated.",
+    technique="information-flow restriction on the response object + accumulator typestate dataflow over the CFG + dominance checks in the field parser",
+    ref="3/C18",
+)
 
 NOT_APPLICABLE = {}
 
